@@ -1,0 +1,21 @@
+//go:build verif
+
+// Contracts for the deductive verifier kept in /verif (govc). This file is comment-only:
+// with the build tag off it does not exist for the compiler, with it on it compiles to nothing.
+package internal
+
+//@ -- ---------------------------------------------------------------------------------------
+//@ -- C16: Depth and Overwrite (RFC 4918 section 10.2, 10.6)
+//@ func internal.ParseDepth(s) (d, err)
+//@   ensures D1: (s == "0" || s == "1" || s == "infinity") <==> err == nil
+//@   ensures D2: err == nil ==> (s == "0" ==> d == DepthZero) && (s == "1" ==> d == DepthOne) && (s == "infinity" ==> d == DepthInfinity)
+//@   ensures D3: err != nil ==> d == 0 && httpCode(err) == -1 && !hostPath(err)
+//@ func internal.(Depth).String(d) (s)
+//@   requires R1: d == DepthZero || d == DepthOne || d == DepthInfinity
+//@   ensures S1: (d == DepthZero ==> s == "0") && (d == DepthOne ==> s == "1") && (d == DepthInfinity ==> s == "infinity")
+//@ func internal.ParseOverwrite(s) (b, err)
+//@   ensures O1: (s == "T" || s == "F") <==> err == nil
+//@   ensures O2: err == nil ==> (b <==> s == "T")
+//@   ensures O3: err != nil ==> !b && httpCode(err) == -1 && !hostPath(err)
+//@ func internal.FormatOverwrite(overwrite) (s)
+//@   ensures F1: s == (overwrite ? "T" : "F")
